@@ -146,11 +146,16 @@ class Check:
                 self.extra["tlc_skipped_precondition"] = self.extra.get("tlc_skipped_precondition", 0) + 1
             elif tag == "STAGES":
                 self.extra["pipeline_stage_traces_validated"] = self.extra.get("pipeline_stage_traces_validated", 0) + 1
+            elif tag == "REFLOW":
+                self.extra["second_pass_traces_validated"] = self.extra.get("second_pass_traces_validated", 0) + 1
+                if p.get("rewritten", 0) > 0:
+                    self.extra["second_pass_traces_with_rewritten_literals"] = self.extra.get("second_pass_traces_with_rewritten_literals", 0) + 1
             elif tag == "DRIFT":
-                self.extra["model_drift_Pipeline"] = self.extra.get("model_drift_Pipeline", 0) + 1
+                mod = p.get("module", "Pipeline")
+                self.extra[f"model_drift_{mod}"] = self.extra.get(f"model_drift_{mod}", 0) + 1
                 if len(self.drift) < 5:
                     self.drift.append(p)
-                    self.notes.append(f"MODEL-DRIFT Pipeline: stage frame {p.get('clause')} not satisfied by a recorded run (session {p.get('sid')})")
+                    self.notes.append(f"MODEL-DRIFT {mod}: {p.get('clause')} not satisfied by a recorded run (session {p.get('sid')})")
         for sid, s in enumerate(sessions):
             tv = {x for x in tlc_viol.get(sid, set()) if x[0] == self.prop}
             if s.get("flagged"):
